@@ -429,3 +429,8 @@ func (w *World) CallsInRegion(root *ssa.Function, obj interface{}) []ssa.Instruc
 	}
 	return out
 }
+
+func isNilConst(v ssa.Value) bool {
+	c, ok := v.(*ssa.Const)
+	return ok && c.IsNil()
+}
